@@ -109,7 +109,11 @@ def monStep (m : MSt) (bl : Block) : MSt × List String :=
         match ustep u r with
         | (u', some exp) => let v := budgetVerdict r exp obs; (if v.isEmpty then some u' else none, v)
         | (_, none) => (none, ["C06:request-outside-the-recorder-protocol"])
-    let fails := m6.fails.drop m.m6.fails.length ++ m11.fails.drop m.m11.fails.length ++ fb
+    -- the storage layer is a recorder sink too (C12): calls outside the start..stop pairing
+    let f12 := (m6.fails.drop m.m6.fails.length).filterMap fun r =>
+      if r == "C06:base-write-outside-file" || r == "C06:base-start-while-open" || r == "C06:base-stop-without-file"
+      then some ("C12:storage-recorder-called-outside-start-stop-pairing-" ++ (r.drop 4).toString) else none
+    let fails := m6.fails.drop m.m6.fails.length ++ m11.fails.drop m.m11.fails.length ++ fb ++ f12
     let isWrite := match r with | .write .. => true | _ => false
     ({ m with steps := st :: m.steps, m6 := m6, m11 := m11, oracle := oracle, issued := m.issued + 1, fwd := m.fwd + fwdCount obs,
               events := m.events + countThrottled obs,
